@@ -89,6 +89,18 @@ func (c05) Enumerate(tier string, seed int64, yield func(string, core.Case) bool
 			return
 		}
 	}
+	nr := 12
+	if thorough {
+		nr = 120
+	}
+	if !famR(seed, nr, func(name string, f [][]int, n int) bool {
+		if n > 8 {
+			return true
+		}
+		return emit("R", cnfProb("slicenb", f, n, n), 1, three[:2])
+	}) {
+		return
+	}
 	enumConstraintSets(tier, func(fam string, p Prob) bool {
 		switch fam {
 		case "card1", "card1u", "pb1", "dec":
